@@ -210,12 +210,23 @@ def r1(report, db, cg, M):
             tgt = db.resolve_dotted(fi.module, call.func) \
                 if isinstance(call.func, (ast.Name, ast.Attribute)) else None
             tgt = db.deref(tgt) if isinstance(tgt, tuple) else tgt
-            if fi is wp:
-                # packet.write(self.socket, ...)
+            if fi is wp or only_for(db, fi, wp):
+                # packet.write(self.socket, ...)  -- in _write_packet, or in
+                # a private helper nothing but _write_packet (and helpers of
+                # its own) refers to
                 callees = [m for m, _, _ in cg.callee_funcs(fi, call)]
                 if callees and all(m.name == 'write' and m.cls is not None
                                    and db.is_subclass(m.cls, pk)
                                    for m in callees):
+                    ok = True
+                elif not callees and fi is not wp and isinstance(
+                        call.func, ast.Attribute) and \
+                        call.func.attr == 'write' and isinstance(
+                            call.func.value, ast.Name) and \
+                        call.func.value.id in fi.all_params:
+                    # the helper's own parameter (the packet _write_packet
+                    # hands it): the call graph has no type for it; the
+                    # who-may-call floor below then leaves this undecided
                     ok = True
                 else:
                     why = 'socket passed to %s' % ast.unparse(call.func)
@@ -357,6 +368,67 @@ def fresh_frame_buffer(report, R, db, cg, pk):
     report.floor('frame-writer calls in Packet.write', n, 1)
 
 
+def only_for(db, fi, root):
+    """Every mention of fi (call or value) sits inside `root` or inside a
+    function for which the same holds: fi is a private part of root."""
+    par_fn = {}
+    for f in db.funcs:
+        if isinstance(f.node, ast.Lambda):
+            continue
+        for x in ast.walk(f.node):
+            par_fn.setdefault(id(x), f)
+    # innermost owner: funcs are listed outer before inner, so overwrite
+    for f in db.funcs:
+        if isinstance(f.node, ast.Lambda):
+            continue
+        for x in ast.walk(f.node):
+            if par_fn[id(x)] is not f and any(
+                    y is f.node for y in ast.walk(par_fn[id(x)].node)):
+                par_fn[id(x)] = f
+    group = {root}
+    changed = True
+    while changed:
+        changed = False
+        for f in db.funcs:
+            if f in group or f.cls is not root.cls or \
+                    not f.name.startswith('_') or isinstance(f.node,
+                                                             ast.Lambda):
+                continue
+            users = set()
+            for m in db.modules.values():
+                for x in ast.walk(m.tree):
+                    if isinstance(x, ast.Attribute) and x.attr == f.name \
+                            and isinstance(x.ctx, ast.Load):
+                        users.add(par_fn.get(id(x)))
+            if users and None not in users and all(
+                    u in group or u is f for u in users):
+                group.add(f)
+                changed = True
+    return fi in group
+
+
+def escapes_as_value(db, fi):
+    """The function is mentioned somewhere other than as the callee of a
+    call (passed on, stored, put in a table)."""
+    par = {}
+    for m in db.modules.values():
+        for x in ast.walk(m.tree):
+            for c in ast.iter_child_nodes(x):
+                par[id(c)] = x
+        for x in ast.walk(m.tree):
+            hit = (isinstance(x, ast.Attribute) and x.attr == fi.name and
+                   isinstance(x.ctx, ast.Load)) or (
+                isinstance(x, ast.Name) and x.id == fi.name and
+                isinstance(x.ctx, ast.Load) and fi.cls is None)
+            if not hit:
+                continue
+            p = par.get(id(x))
+            if isinstance(p, ast.Call) and p.func is x:
+                continue
+            return True
+    return False
+
+
 def only_wraps(db, callee, call, node):
     """The in-repo function the socket is handed to does nothing with that
     parameter but pass it to constructors of in-repo classes (the cipher
@@ -430,6 +502,27 @@ def r2(report, db, cg, M):
                           c.caller.qualname for c in callers)))))
         else:
             chain = M.unlocked_path_to(fi)
+            # a function on the unlocked chain that is handed around as a
+            # value (iter(self._write_next, False), a table of callables) is
+            # called by whoever holds the value: the call graph cannot say
+            # under which lock
+            cur, seen_ = fi, set()
+            while cur is not None and cur not in seen_:
+                seen_.add(cur)
+                nxt = None
+                for caller, cs in M._callers.get(cur, []):
+                    if not (held[caller] or M.site_in_lock(caller, cs.node)):
+                        nxt = caller
+                        break
+                if nxt is None:
+                    break
+                if escapes_as_value(db, nxt):
+                    raise AnalysisError(
+                        '%s reaches %s without the lock, but it is also '
+                        'handed on as a value: under which lock it runs is '
+                        'not decided' % (nxt.qualname, fi.qualname),
+                        nxt.node, rel(nxt.path))
+                cur = nxt
             first = None
             for caller, cs in M._callers.get(fi, []):
                 if not (held[caller] or M.site_in_lock(caller, cs.node)):
